@@ -577,7 +577,7 @@ func (c *VirtualTable) Insert(ctx context.Context, values map[int]interface{}) (
 	if err != nil {
 		return 0, fmt.Errorf("get: %w", err)
 	}
-	if ok && (!old.Deleted || !ot.Add(old.DeleteUpdateOffset.AsDuration()).Before(t)) {
+	if ok && (!old.Deleted || ot.Add(old.DeleteUpdateOffset.AsDuration()).After(t)) {
 		return 0, ErrS3DBConstraintPrimaryKey
 	}
 	new.ColumnValues = make(map[string]*v1proto.ColumnValue)
